@@ -93,6 +93,7 @@ func TestC05(t *testing.T) {
 		seq := 0
 		nid := uint32(0)
 		maxOutstanding, maxDepth, dropBeforeReply := 0, 0, false
+		closedWithRequest := false
 		canon := kind + "|"
 
 		livePipes := func() []*mpipe {
@@ -372,6 +373,39 @@ func TestC05(t *testing.T) {
 				logf("addPipe")
 				canon += "P"
 			},
+			"closeCtx": func(t *rapid.T) {
+				// a context is closed, possibly with a received request it has not answered: later calls
+				// on it fail with a closed error, nothing is transmitted for it, the others carry on
+				if raw || len(ctxs) < 2 {
+					t.Skip("needs an extra context")
+				}
+				ci := rapid.IntRange(1, len(ctxs)-1).Draw(t, "ctx")
+				c := ctxs[ci]
+				pending := c.last != nil
+				if err := c.c.Close(); err != nil {
+					fail("context-close", "Close of ctx %d: %v", ci, err)
+					return
+				}
+				msg := mangos.NewMessage(8)
+				msg.Body = append(msg.Body, "too-late"...)
+				var serr, rerr error
+				if !fixture.Within(3*time.Second, func() { serr = c.c.SendMsg(msg); _, rerr = c.c.RecvMsg() }) {
+					fail("closed-context-blocks", "Send/Recv on the closed ctx %d did not return within 3s", ci)
+					return
+				}
+				if serr != mangos.ErrClosed || rerr != mangos.ErrClosed {
+					fail("closed-context-usable", "after Close, ctx %d (request pending: %v): Send=%v Recv=%v, want ErrClosed for both", ci, pending, serr, rerr)
+				}
+				if serr != nil {
+					msg.Free()
+				}
+				ctxs = append(ctxs[:ci], ctxs[ci+1:]...)
+				logf("closeCtx(%d,pending=%v)", ci, pending)
+				canon += "X"
+				if pending {
+					closedWithRequest = true
+				}
+			},
 			"openCtx": func(t *rapid.T) {
 				if raw || len(ctxs) >= 3 {
 					t.Skip("n/a")
@@ -464,6 +498,9 @@ func TestC05(t *testing.T) {
 		if maxDepth >= 1 {
 			stats.Class("depth>=1")
 			nt = true
+		}
+		if closedWithRequest {
+			stats.Class("context_closed_with_unanswered_request")
 		}
 		if dropBeforeReply {
 			stats.Class("drop_before_reply")
